@@ -67,6 +67,7 @@ func C06(p *core.Prog, rep *core.Report) {
 	cd4Framing(p, rep)
 	m.ps8Merge()
 	m.mg3Liveness()
+	m.mg4EveryRecordLookedUp()
 	m.mg1Guard()
 	m.mg2MarkerID()
 	v := newVF(p, rep)
